@@ -635,6 +635,29 @@ def _copy_prop(fn):
     return changed
 
 
+def _tail_returns_of(body):
+    """The Return statements in tail position of a statement list (last statement of the function body, of the branches of a tail if,
+    of the body / handlers of a tail try without finally, of a tail with), or None when the list does not end in such a shape on a
+    path that returns a value."""
+    if not body:
+        return []
+    last = body[-1]
+    if isinstance(last, ast.Return):
+        return [last]
+    if isinstance(last, ast.If):
+        a = _tail_returns_of(last.body)
+        b = _tail_returns_of(last.orelse) if last.orelse else []
+        return None if a is None or b is None else a + b
+    if isinstance(last, ast.Try) and not last.finalbody:
+        parts = [_tail_returns_of(last.orelse if last.orelse else last.body)] + [_tail_returns_of(h.body) for h in last.handlers]
+        if last.orelse and any(isinstance(x, ast.Return) for st in last.body for x in ast.walk(st)):
+            return None
+        return None if any(p_ is None for p_ in parts) else [r for p_ in parts for r in p_]
+    if isinstance(last, (ast.With, ast.AsyncWith)):
+        return _tail_returns_of(last.body)
+    return []
+
+
 def inline_new_helpers(fn, resolve, is_new, depth=2):
     """Statement-level inlining of calls to package helpers that do not exist in the reference (a block that was moved into a new
     private function).  resolve(call) -> FunctionDef node of the callee or None; is_new(node) -> True when the reference has no
@@ -655,7 +678,8 @@ def inline_new_helpers(fn, resolve, is_new, depth=2):
             if n is not g and isinstance(n, SCOPES + (ast.Global, ast.Nonlocal, ast.Yield, ast.YieldFrom, ast.Await)):
                 return False
         rets = [n for n in ast.walk(g) if isinstance(n, ast.Return)]
-        if len(rets) > 1 or (rets and rets[0] is not body[-1]):
+        tails = _tail_returns_of(body)
+        if tails is None or len(tails) != len(rets):
             return False
         return True
 
@@ -710,7 +734,41 @@ def inline_new_helpers(fn, resolve, is_new, depth=2):
                         return ast.copy_location(clone(direct[n.id]), n)
                     return n
             body = [D().visit(st) for st in body]
+        tails = _tail_returns_of(body) or []
         last = body[-1] if body else None
+        if tails and not (len(tails) == 1 and tails[0] is last):
+            # returns in tail position of nested ifs / try / with: each becomes the statement the call site needs
+            ids = {id(r) for r in tails}
+
+            def conv(val):
+                val = val if val is not None else ast.Constant(value=None)
+                if how == 'assign':
+                    return [ast.Assign(targets=[clone(t) for t in target], value=val)]
+                if how == 'aug':
+                    return [ast.AugAssign(target=clone(target[0]), op=target[1], value=val)]
+                if how == 'return':
+                    return [ast.Return(value=val)]
+                return [ast.Expr(value=val)] if not isinstance(val, (ast.Name, ast.Constant, ast.Tuple)) else [ast.Pass()]
+
+            def rewrite(stmts):
+                out2 = []
+                for st in stmts:
+                    if id(st) in ids:
+                        out2.extend(conv(st.value))
+                        continue
+                    for fld in ('body', 'orelse'):
+                        v = getattr(st, fld, None)
+                        if isinstance(v, list) and v and isinstance(v[0], ast.stmt):
+                            setattr(st, fld, rewrite(v))
+                    for h in getattr(st, 'handlers', []) or []:
+                        h.body = rewrite(h.body)
+                    out2.append(st)
+                return out2
+            # a path that falls off the end of the helper returns None
+            falls = not isinstance(last, (ast.Return, ast.Raise)) and not (isinstance(last, (ast.If, ast.Try, ast.With)) and _tail_returns_of([last]))
+            if falls:
+                return None
+            return out + rewrite(body)
         if isinstance(last, ast.Return):
             body = body[:-1]
             val = last.value if last.value is not None else ast.Constant(value=None)
@@ -921,6 +979,63 @@ def _mutated_names(fn):
         if c > 1:
             mut.add(k)
     return mut, stores
+
+
+def _split_multi_defs(fn):
+    """A temporary that is re-used for unrelated values (`t = a.upper()` in one loop, `t = b.upper()` in another) is split into one
+    name per definition when every read is preceded, in its own block, by exactly one of the definitions."""
+    params = {a.arg for a in fn.args.posonlyargs + fn.args.args + fn.args.kwonlyargs}
+    sites = {}
+    other_stores = set()
+    for owner in ast.walk(fn):
+        for fld in ('body', 'orelse', 'finalbody'):
+            body = getattr(owner, fld, None)
+            if not (isinstance(body, list) and body and isinstance(body[0], ast.stmt)) or isinstance(owner, ast.Lambda):
+                continue
+            for i, st in enumerate(body):
+                if isinstance(st, ast.Assign) and len(st.targets) == 1 and isinstance(st.targets[0], ast.Name):
+                    sites.setdefault(st.targets[0].id, []).append((body, i, st))
+    plain = {id(st.targets[0]) for lst in sites.values() for _, _, st in lst}
+    for n in ast.walk(fn):
+        if isinstance(n, ast.Name) and isinstance(n.ctx, (ast.Store, ast.Del)) and id(n) not in plain:
+            other_stores.add(n.id)
+        elif isinstance(n, (ast.Global, ast.Nonlocal)):
+            other_stores |= set(n.names)
+    changed = False
+    k = 0
+    for nm, lst in sites.items():
+        if len(lst) < 2 or nm in params or nm in other_stores:
+            continue
+        if not all(_pure_expr(st.value) and nm not in {x.id for x in ast.walk(st.value) if isinstance(x, ast.Name)} for _, _, st in lst):
+            continue
+        total = sum(1 for x in ast.walk(fn) if isinstance(x, ast.Name) and x.id == nm and isinstance(x.ctx, ast.Load))
+        covered = 0
+        regions = []
+        ok = True
+        for body, i, st in lst:
+            j = i + 1
+            region = []
+            while j < len(body) and not (isinstance(body[j], ast.Assign) and len(body[j].targets) == 1 and isinstance(body[j].targets[0], ast.Name)
+                                         and body[j].targets[0].id == nm):
+                # a nested re-definition inside a later statement of this region would make the split ambiguous
+                if any(isinstance(x, ast.Name) and x.id == nm and isinstance(x.ctx, ast.Store) for x in ast.walk(body[j])):
+                    ok = False
+                region.append(body[j])
+                j += 1
+            covered += sum(1 for r in region for x in ast.walk(r) if isinstance(x, ast.Name) and x.id == nm and isinstance(x.ctx, ast.Load))
+            regions.append((st, region))
+        if not ok or covered != total:
+            continue
+        for st, region in regions:
+            k += 1
+            new = '%s__d%d' % (nm, k)
+            st.targets[0].id = new
+            for r in region:
+                for x in ast.walk(r):
+                    if isinstance(x, ast.Name) and x.id == nm and isinstance(x.ctx, ast.Load):
+                        x.id = new
+        changed = True
+    return changed
 
 
 def _forward_subst(fn, module_exprs=None):
@@ -1377,7 +1492,9 @@ def normal_form(fn, callee_info=None, consts=None):
         _ifexp_assign(c)
         _guard_continue(c)
         _loop_to_comprehension(c)
+        _split_multi_defs(c)
         _forward_subst(c, getattr(consts, 'exprs', None))
+        c = _FoldConst().visit(c)
         if ast.dump(c) == before:
             break
     _alpha(c)
